@@ -112,6 +112,7 @@ import E3nnVerif.Generated.TP.M012
 import E3nnVerif.Generated.TP.M014
 import E3nnVerif.Generated.TP.M015
 import E3nnVerif.Generated.TP.M013
+import E3nnVerif.Generated.TP.M016
 import E3nnVerif.Generated.TP.R000
 import E3nnVerif.Generated.TP.R001
 import E3nnVerif.Generated.TP.R002
@@ -235,6 +236,7 @@ def registry : List (String × Cfg × List Node) := [
   ("M014", M014.cfg, M014.prog),
   ("M015", M015.cfg, M015.prog),
   ("M013", M013.cfg, M013.prog),
+  ("M016", M016.cfg, M016.prog),
   ("R000", R000.cfg, R000.prog),
   ("R001", R001.cfg, R001.prog),
   ("R002", R002.cfg, R002.prog),
